@@ -1881,6 +1881,7 @@ func (g *vcgen) builtin(v ssa.Value, b *ssa.Builtin, c *ssa.CallCommon, args []s
 		g.set(has, fmt.Sprintf("(ite (= %s 0) %s (store %s %s (store (select %s %s) %s false)))", m, ch, ch, m, ch, m, k))
 		return nil
 	case "close":
+		g.emitChanEvents("close", c.Args[0], "true") // close(ch) is an event of the channel it closes
 		return nil
 	case "copy":
 		if st, ok := c.Args[0].Type().Underlying().(*types.Slice); ok {
@@ -1998,6 +1999,13 @@ func (g *vcgen) goStmt(x *ssa.Go) {
 	g.eng.wantSpawn = true
 	g.emitEvents(c, args, nil, false)
 	g.eng.wantSpawn = false
+	// a captured variable that the goroutine reads and this function assigns again after the go statement (race.go)
+	for _, r := range spawnRaces(x) {
+		// a fact of the control-flow graph, not of the path condition: the obligation carries no assumptions and fails at once
+		g.u.Obls = append(g.u.Obls, &Obligation{Name: g.u.Name + "/race(go " + shortName(FullName(r.Closure)) + ": " + r.Var + ")", Class: "race", Func: g.u.Name,
+			Src:   "the goroutine reads the captured variable " + r.Var + ", which its starter assigns again after the go statement: it does not see the value it was started for",
+			Parts: []Part{{Prefix: 0, Goal: "false"}}})
+	}
 	if fc := g.eng.ContractOf(fn); fc != nil {
 		env := g.contractEnv(fc, fn, fn.Signature, args, binds, nil, g.st, nil)
 		site := g.callSite("go " + shortName(FullName(fn)))
